@@ -265,7 +265,7 @@ func c17Items(c *Ctx) []pgen.FItem {
 		items = append(items, pgen.FmapSliceItem(id(), a, b, false))
 	}
 	for i, b := range types {
-		if c.Quick && i%2 != int(c.Seed%2) {
+		if c.Quick && i%2 != int(c.Seed%2) && b != "rune" && b != "string" {
 			continue
 		}
 		if seen["fsrune"+b] {
@@ -348,6 +348,14 @@ func c18Items(c *Ctx) []pgen.FItem {
 	add(pgen.FSig{P: []string{"*SV"}, R: []string{"[]string", "error"}, Mode: "blank"})
 	add(pgen.FSig{P: nil, R: []string{"int", "error"}, Mode: "named"})
 	add(pgen.FSig{P: []string{"NStr", "float64", "bool"}, R: []string{"error"}, Mode: "reserved"})
+	// functions whose results are nil / zero (a sentinel that must not be mistaken for "not computed yet");
+	// result types outside the alphabet above, so that no signature is asked for twice in one package
+	for _, rt := range []string{"*SP", "[]SV", "map[int]string", "error", "[]*int", "*NInt", "uint8"} {
+		add(pgen.FSig{P: nil, R: []string{rt}, Mode: "named", ZeroResults: true})
+	}
+	add(pgen.FSig{P: []string{"int"}, R: []string{"*SP"}, Mode: "named", ZeroResults: true})
+	add(pgen.FSig{P: []string{"[]string"}, R: []string{"[]SV", "*int"}, Mode: "named", ZeroResults: true})
+	add(pgen.FSig{P: nil, R: []string{"*NStr", "[]SV"}, Mode: "named", ZeroResults: true})
 	// functions that recurse through their own memoized form
 	items = append(items, pgen.MemReentrantItem("QR1", "int"), pgen.MemReentrantItem("QR2", "string"))
 	return items
